@@ -33,15 +33,15 @@ from ..core import Ctx, load_corpus
 
 ID = "C17"
 LEVEL = "proof"
-STRENGTH = "partial"      # the mirror clause (exact) and the gate clause (every kind) are proved under named guards: F1, F4
+STRENGTH = "partial"      # the gate clause holds for the start-up kinds only (by design: F4); the mirror clause is unconditional
 ENGINES = ["lean-model", "purediff", "kopfsim"]
 LEVEL_TEXT = (
     "Lean theorems for all event lists / all label interleavings. INDEX clause: no KeyError inside the index "
     "(run_total), forward/reverse consistency, no empty collections, key uniqueness of all three dicts as invariants; "
-    "index = groupBy(documented reference) up to Python equality with provenance (mirror_upto_pyeq, unguarded); the "
-    "EXACT mirror only under the history guard NoTwins (mirror_partial; sufficient, not exact) because the clause is "
-    "false of the code for Python's == (mirror_witness = finding F1); the keep/remove table incl. the retries=/timeout= "
-    "budget. GATE clause: safety for every interleaving with any number of spawn_missing_watchers batches incl. the "
+    "index = groupBy(documented reference) exactly and unconditionally (mirror; finding F1 is repaired in kopf 5068b98 "
+    "and kept as a regression example + corpus case); the Lean reference reads any Mapping result as the code does "
+    "(open finding F2 is a docs-vs-code matter, reported by the oracle only); the keep/remove table incl. the "
+    "retries=/timeout= budget. GATE clause: safety for every interleaving with any number of spawn_missing_watchers batches incl. the "
     "empty first batch of a namespaced start-up, watcher deaths and respawns: gate_safe for the START-UP kinds (those "
     "of the batches begun before anybody saw the set on: in both real start-ups every kind of the first non-empty "
     "batch), pass_safe/detach_safe for every kind spawned so far; the unrestricted 'every indexed kind' is false of "
@@ -62,9 +62,7 @@ THEOREMS = [
     ("Kopf.Props.C17", "Kopf.C17.fwd_rev_consistent"),
     ("Kopf.Props.C17", "Kopf.C17.no_empty_collections"),
     ("Kopf.Props.C17", "Kopf.C17.keys_unique"),
-    ("Kopf.Props.C17", "Kopf.C17.mirror_upto_pyeq"),
-    ("Kopf.Props.C17", "Kopf.C17.mirror_partial"),
-    ("Kopf.Props.C17", "Kopf.C17.mirror_witness"),
+    ("Kopf.Props.C17", "Kopf.C17.mirror"),
     ("Kopf.Props.C17", "Kopf.C17.mirror_exclusions"),
     ("Kopf.Props.C17", "Kopf.C17.others_untouched"),
     ("Kopf.Props.C17", "Kopf.C17.deleted_discards"),
@@ -132,7 +130,6 @@ ASSUMPTIONS = [
 KINDS = ["kexa", "kexb", "kexc"]
 LATE_KIND = "kexd"      # a kind discovered after the start-up (second spawn_missing_watchers batch)
 GROUP, VERSION = "kopf.dev", "v1"
-F1_SIG = {"site": "Store._replace", "shape": "a new value that == the stored one (True/1/0/False) is not stored"}
 F2_SIG = {"site": "OperatorIndexer.replace", "shape": "a non-dict Mapping result is unpacked by key (docs: strictly dict)"}
 
 
@@ -378,8 +375,6 @@ def oracle_index(case: dict, obs: dict) -> list[tuple[str, dict, dict]]:
             other = alt.get((d.get("event"), d.get("index")))
             if other is None:
                 return F2_SIG                   # gone once the Mapping is read as the code reads it
-            if other == F1_SIG:
-                return F1_SIG                   # F2 and F1 together: what remains is only the ==-twin
             return sg
         fails = [(w, d, attribute(d, sg)) for (w, d, sg) in fails]
     return fails
@@ -483,8 +478,9 @@ def _oracle_index(case: dict, obs: dict, memo_as_dict: bool) -> list[tuple[str, 
             strict = lambda d: {k: sorted(canon(v) for v in vs) for k, vs in d.items()}
             if strict(want) != strict(got):
                 sig = {"site": "index-content", "shape": "index differs from the documented reference"}
-                if _equal_up_to_python_eq(want, got):
-                    sig = F1_SIG
+                if _equal_up_to_python_eq(want, got):     # the repaired C17-F1: would be a regression of kopf 5068b98
+                    sig = {"site": "Store._replace", "shape": "a value == to the stored one (True/1/0/False) was not stored",
+                           "regression_of": "C17-F1"}
                 fails.append((f"event #{n}: index {iid} is {got}, the documented rules give {want}",
                               {"event": n, "index": iid, "got": got, "want": want}, sig))
     return fails
@@ -1096,8 +1092,8 @@ def summarise_index(results: list[dict], source: str, sm: dict | None = None, wi
         _count(sm, "index.objects", len({objkey(e) for e in case["events"]}))
         _count(sm, "index.source", source)
         for what, detail, sig in r["fails"]:
-            known = sig in (F1_SIG, F2_SIG)
-            if sum(1 for f in sm["oracle"] if (f[2] in (F1_SIG, F2_SIG)) == known) < 12:
+            known = sig == F2_SIG
+            if sum(1 for f in sm["oracle"] if (f[2] == F2_SIG) == known) < 12:
                 sm["oracle"].append((what, {"case": case, "detail": detail, "impl": obs["snaps"]}, sig))
         reqs.append(model_request(case))
     if with_lean and reqs:
